@@ -126,6 +126,10 @@ inductive Abort where
   | unexpectedOutput (cmd out : Str)
   | writeMemUnexpected (out : Str)
   | writeMemGiveUp
+  /-- `LoginEnable`: "Authentication failed" (`false`) / "Authentication for enable mode failed" (`true`) -/
+  | loginFailed (enable : Bool)
+  /-- a Go run-time panic (slice bounds out of range) -/
+  | indexPanic
   deriving Repr, DecidableEq
 
 inductive Res (α : Type) where
